@@ -392,6 +392,9 @@ func round2(f float64) float64 { return float64(int(f*100+0.5)) / 100 }
 // propertyExtras: obligations that are not attached to one function (scans, lemmas).
 func propertyExtras(e *Engine, l *Loaded, prop string) []*Oblig {
 	var out []*Oblig
+	if prop == "C10" || prop == "C12" {
+		out = append(out, bn254TableObligation(e))
+	}
 	for _, sc := range storeScans {
 		if !contains(sc.Props, prop) {
 			continue
